@@ -303,6 +303,18 @@ M('F26R', 'src/xdoctest/parser.py', """                a = 0
 M('F27R', 'src/xdoctest/static_analysis.py', """        self.sourcelines = re.split('\\r\\n|\\r|\\n', self.source)
 """, """        self.sourcelines = self.source.splitlines()
 """, ['C08'], 'F27 repair reverted: the line table is split at form feeds and unicode separators too')
+M('F28R', 'src/xdoctest/static_analysis.py', """        if getattr(docnode, 'end_lineno', None) is not None and PLAT_IMPL != 'PyPy':
+            # Both ends of the literal are recorded, nothing to search for
+            # (the search below expects the literal to start its line)
+            return docnode.lineno, docnode.end_lineno
+        elif hasattr(docnode, 'end_lineno'):""", """        if hasattr(docnode, 'end_lineno'):""", ['C08'], 'F28 repair reverted: docstring start searched backwards from its last line')
+M('F29R', 'src/xdoctest/checker.py', """bytes_literal_re = re.compile(r"([^\\w\\'\\"]|^)[bB]([rR]?[\\'\\"])", re.UNICODE)""", """bytes_literal_re = re.compile(r"(\\W|^)[bB]([rR]?[\\'\\"])", re.UNICODE)""", ['C02', 'C05'], "F29 repair reverted: the one letter string 'b' is taken for a bytes prefix")
+M('F30R', 'src/xdoctest/doctest_example.py', """            for optpart in _split_opstr(directive_optstr):""", """            for optpart in directive_optstr.split(','):""", ['C04'], 'F30 repair reverted (1): the option string is split at every comma')
+M('F30bR', 'src/xdoctest/doctest_example.py', """            (['--options'], dict(type=str, default=None, dest='options',""", """            (['--options'], dict(type=str_lower, default=None, dest='options',""", ['C04'], 'F30 repair reverted (2): the option string is lower-cased')
+M('F31R', 'src/xdoctest/static_analysis.py', """            for child in node.orelse:
+                self.visit(child)
+            return""", """            return""", ['C07'], 'F31 repair reverted (1): the else branch of a main guard is skipped')
+M('F31bR', 'src/xdoctest/static_analysis.py', """        return names == ['__name__'] and values == ['__main__']""", """        return names == ['__name__'] and values == ['__main__'] and isinstance(test.left, ast.Name)""", ['C07'], 'F31 repair reverted (2): only the usual order of the main guard is recognised')
 M('F17R', 'src/xdoctest/doctest_example.py', """                part_directive = None
                 try:
                     try:
